@@ -5,6 +5,10 @@ real make_diff / strip_unchanged / formatter.diff / gen_pre_as_diff(make_pre(.))
 reference computed from the two configs and the rulebook structure; the `annet file-diff` view (the pre returned by
 annet.api._read_old_new_diff_patch, rendered by gen_pre_as_diff) must read back to the same entries.
 
+Part M (several devices): annet.diff.gen_sort_diff for every three consecutive corpus samples of a vendor as three
+devices, with and without collapsing, its results collected into a list before any text is read (as annet.cli does):
+the text under a device's label reads back to that device's own diff, and no device is lost.
+
 Part E (end to end): for every sample of the shipped corpus, the production worker of `annet diff` (annet.diff.worker, run
 through mc/e2e.py exactly as annet.api.diff hands it to the pool) with the shipped rulebooks: every row the generators
 produce and the device lacks is reported as added, every device row the generators do not produce as removed (rows the
@@ -70,7 +74,7 @@ def setup():
 
 
 def blocks(tier, seed):
-    out = [{"part": "E", "i": i, "of": 8} for i in range(8)]
+    out = [{"part": "E", "i": i, "of": 8} for i in range(8)] + [{"part": "M", "i": i, "of": 4} for i in range(4)]
     for fi, (name, rbs) in enumerate(all_families(tier)):
         for v in vendors(tier):
             step = 6 if tier == "quick" else 3
@@ -372,6 +376,8 @@ def run_e2e(block, ctx):
 def run_block(block, ctx):
     if block.get("part") == "E":
         return run_e2e(block, ctx)
+    if block.get("part") == "M":
+        return run_multi(block, ctx)
     fams = all_families(ctx.tier)
     name, rbs = fams[block["family"]]
     vendor = block["vendor"]
@@ -465,7 +471,78 @@ def check_e2e(sample, acl_safe, report):
     return "ok", n
 
 
+def check_multi(vendor_key, group, no_collapse, report):
+    """part M: annet.diff.gen_sort_diff over several devices, collected first and read afterwards (as annet.cli does):
+    every device's text must read back to that device's own diff"""
+    from annet import cli_args, patching, rulebook
+    from annet import diff as ann_diff
+    from annet.annlib.netdev.views.hardware import HardwareView
+    from mc import e2e
+    case = {"part": "M", "vendor_key": vendor_key, "samples": [s_["name"] for s_ in group], "no_collapse": no_collapse}
+    diffs, own = {}, {}
+    for i, s_ in enumerate(group):
+        hw = HardwareView(s_["model"], None)
+        d = e2e._Device()
+        d.hw, d.hostname, d.fqdn, d.id, d.breed = hw, "h%d" % i, "h%d.example" % i, None, hw.vendor
+        try:
+            df = patching.strip_unchanged(patching.make_diff(env.to_odict(s_["old"]), env.to_odict(s_["new"]), rulebook.get_rulebook(hw), []))
+        except Exception:  # noqa
+            continue
+        if df:
+            diffs[d] = df
+            own["h%d.cfg" % i] = df
+    if len(diffs) < 2:
+        return 0
+    args = cli_args.ShowDiffOptions(query=e2e._harness_query(), indent="  ", no_color=True, show_rules=False, no_collapse=bool(no_collapse))
+    try:
+        out = list(ann_diff.gen_sort_diff(diffs, args))
+        texts = [(name, t if isinstance(t, str) else "".join(t)) for name, t, _ in out]
+    except Exception as e:  # noqa
+        report({"kind": "multi-device-view-raises", "exc": type(e).__name__}, case, repr(e)[:300])
+        return 0
+    names = {"removed": "removed", "added": "added", "moved": "moved", "affected": "affected"}
+
+    def norm(t):
+        return [(names.get(str(getattr(op, "value", op)), str(getattr(op, "value", op))), row, norm(ch)) for op, row, ch in t]
+    seen = set()
+    for name, text in texts:
+        got = read_pre_diff([ln + "\n" for ln in text.split("\n") if ln], "  ")
+        for one in name.split(", "):
+            seen.add(one)
+            want = norm(plain(own.get(one, [])))
+            if multiset(got) != multiset(want):
+                report({"kind": "multi-device-view-shows-another-diff", "no_collapse": bool(no_collapse)}, case,
+                       "label %s: shown %r, that device's diff is %r" % (one, got, want))
+                return len(diffs)
+    if seen != set(own):
+        report({"kind": "multi-device-view-loses-a-device"}, case, "labels %r, devices %r" % (sorted(seen), sorted(own)))
+    return len(diffs)
+
+
+def run_multi(block, ctx):
+    from mc import corpus
+    by = {}
+    for s_ in corpus.samples():
+        by.setdefault(s_["vendor_key"], []).append(s_)
+    for vk, lst in sorted(by.items()):
+        for i in range(block["i"], max(0, len(lst) - 2), block["of"]):
+            for nc in (0, 1):
+                if ctx.expired():
+                    return
+                n = check_multi(vk, lst[i:i + 3], nc, ctx.violation)
+                ctx.evals += 1
+                ctx.states += 1
+                ctx.nontrivial += int(n >= 2)
+                ctx.outcomes["M:devices=%d" % n] += 1
+
+
 def replay(case):
+    if case.get("part") == "M":
+        from mc import corpus
+        out = []
+        S = {s_["name"]: s_ for s_ in corpus.samples()}
+        check_multi(case["vendor_key"], [S[n] for n in case["samples"]], case["no_collapse"], lambda sig, c, d="": out.append((sig, d)))
+        return out
     if case.get("part") == "E":
         from mc import corpus
         out = []
